@@ -951,7 +951,9 @@ class ThickTranslator(LineTranslator):
                     raise TrError(f"{W}: every arm must be `Enum::Variant => (.., ..)`")
                 items.append((self.tr_pat(ap, env[sv], {}, line), ab[2]))
             env2 = dict(env)
-            out = []
+            # the alias is chosen by the value the scrutinee has NOW: kept under a name no Rust binding can shadow
+            sel = self.fresh(sv + "_sel")
+            out = [f"let {sel} := {self.lvar(sv)};\n{pad}"]
             for k, q in enumerate(pat[2]):
                 col = [it[k] for (_, it) in items]
                 if all(c[0] == "refmut" for c in col):
@@ -965,7 +967,7 @@ class ThickTranslator(LineTranslator):
                             raise TrError(f"{W}: a `&mut` alias must point to `i32` places")
                         et = pt
                         al_arms.append((ptxt, root, fields, env[root]))
-                    env2[q[2]] = ("alias", self.lvar(sv), al_arms, et)
+                    env2[q[2]] = ("alias", sel, al_arms, et)
                 elif any(c[0] == "refmut" for c in col):
                     raise TrError(f"{W}: `&mut` in some arms only")
                 else:
@@ -976,8 +978,6 @@ class ThickTranslator(LineTranslator):
                     env2[q[2]] = t
                     out.append(f"let {self.lvar(q[2])} := {txt};\n{pad}")
                 env2["%frozen"] = env2["%frozen"] - {q[2]}
-            # the scrutinee must not change while the alias lives
-            env2["%frozen"] = env2["%frozen"] | {sv}
             r, rt = rest(env2)
             return "".join(out) + r, rt
 
@@ -1446,13 +1446,92 @@ def selftest():
     return problems
 
 
+THICK_SELFTEST_SRC = """
+#[derive(Copy, Clone, PartialEq)]
+pub struct Point { pub x: i32, pub y: i32 }
+impl Point { pub const fn new(x: i32, y: i32) -> Self { Point { x, y } } }
+#[derive(Copy, Clone, PartialEq)]
+pub enum Side { A, B }
+pub enum Plain { P, Q }
+const ORIGIN: Point = Point::new(0, 0);
+pub struct Inner { pub n: u32 }
+impl Inner {
+    fn tick(&self, e: &mut i32) -> bool { *e += 1; *e > 3 }
+    fn pull(&mut self) -> Option<u32> { loop { if self.n > 0 { self.n -= 1; return Some(self.n); } else { return None; } } }
+}
+pub struct Walker { pub l: i32, pub r: i32, pub inner: Inner, pub big: i64 }
+impl Walker {
+CASES
+}
+"""
+THICK_SELFTEST_CASES = [
+    ("ok_loop", "fn ok_loop(&mut self) -> i32 { loop { if self.l > 3 { return self.l; } self.l += 1; } }", None, "(LoopStep.return_ (Option.some ((Walker_l self), self)))"),
+    ("ok_alias", "fn ok_alias(&mut self, s: Side) -> i32 { let (e, k) = match s { Side::A => (&mut self.l, 1i32), Side::B => (&mut self.r, 2i32) }; *e += k; *e }",
+     None, "let self := (match s_sel1' with | Side.A => (Walker_set_l self (i32_add (match s_sel1' with | Side.A => (Walker_l self) | Side.B => (Walker_r self)) k))"),
+    ("ok_alias_arg", "fn ok_alias_arg(&mut self, s: Side) -> bool { let (e, k) = match s { Side::A => (&mut self.l, 1i32), Side::B => (&mut self.r, 2i32) }; if self.inner.tick(e) { true } else { false } }",
+     None, "(LineSrc.Inner_tick (Walker_inner self) (match s_sel1' with | Side.A => (Walker_l self) | Side.B => (Walker_r self)))"),
+    ("ok_try", "fn ok_try(&mut self) -> Option<u32> { let v = self.inner.pull()?; Some(v) }", None, "| Option.none => (Option.some (Option.none, self))"),
+    ("ok_const_eq", "fn ok_const_eq(&self, p: Point) -> bool { p == ORIGIN }", None, "(struct_eq p LineSrc.ORIGIN)"),
+    ("ok_i64", "fn ok_i64(&self) -> bool { (i64::from(self.l) * 2).pow(2) > self.big }", None, "(i64_gt (i64_pow (i64_mul (i64_from_i32 (Walker_l self)) (2 : Int)) (2 : Nat)) (Walker_big self))"),
+    ("bad_eq_no_derive", "fn bad_eq_no_derive(&self, a: Plain, b: Plain) -> bool { a == b }", "does not derive PartialEq", None),
+    ("bad_break", "fn bad_break(&mut self) -> i32 { loop { break; } }", "`break` not supported", None),
+    ("bad_alias_escape", "fn bad_alias_escape(&mut self, s: Side) -> i32 { let (e, k) = match s { Side::A => (&mut self.l, 1i32), Side::B => (&mut self.r, 2i32) }; let f = e; k }",
+     "is used in a position the translator does not know", None),
+    ("ok_alias_scrutinee_changes", "fn ok_alias_scrutinee_changes(&mut self, mut s: Side) -> i32 { let (e, k) = match s { Side::A => (&mut self.l, 1i32), Side::B => (&mut self.r, 2i32) }; s = Side::B; *e }",
+     None, "let s := Side.B;\n  ((match s_sel1' with | Side.A => (Walker_l self) | Side.B => (Walker_r self)), self)"),
+    ("bad_try_plain", "fn bad_try_plain(&self, o: Option<u32>) -> Option<u32> { let v = o?; Some(v) }", "`?` in a position the translator does not know", None),
+    ("bad_nested_loop", "fn bad_nested_loop(&mut self) -> i32 { loop { loop { return 1; } } }", "nested loops", None),
+    ("bad_refmut_free", "fn bad_refmut_free(&mut self) -> i32 { let e = &mut self.l; 1 }", "`&mut` expression in a position", None),
+]
+
+
+def selftest_thick():
+    problems = []
+    src = THICK_SELFTEST_SRC.replace("CASES", "\n".join("    " + c[1] for c in THICK_SELFTEST_CASES))
+    saved = (dict(EXPECTED_STRUCTS), dict(THICK_EXPECTED_ENUMS))
+    try:
+        toks = tokenize(strip_comments(src, "selftest"), "selftest")
+        derives = derives_partial_eq(toks)
+        consts = {}
+        files, data_enums, instances, generic_names = monomorphise({"selftest": toks}, consts)
+        prog = Program()
+        parse_items(Cursor(files["selftest"]), prog, "selftest")
+        if derives != {"Point", "Side"} or consts != {"ORIGIN": "selftest"}:
+            problems.append(f"pre-pass: derives {derives}, consts {consts}")
+        EXPECTED_STRUCTS.update({"Walker": [], "Inner": []})
+        THICK_EXPECTED_ENUMS.update({"Side": [], "Plain": []})
+        with scoped_parser():
+            for (name, _, err, frag) in THICK_SELFTEST_CASES:
+                tr = ThickTranslator(prog, data_enums, generic_names, instances, consts, derives)
+                try:
+                    tr.need(prog.fns[("Walker", None, name)])
+                    text = tr.out[-1].replace("RectSrc.", "LineSrc.")
+                    if err is not None:
+                        problems.append(f"{name}: ACCEPTED but must be refused ({err}); output: {text.strip()[-200:]}")
+                    elif frag not in text:
+                        problems.append(f"{name}: translated to unexpected text: {text}")
+                except TrError as ex:
+                    if err is None:
+                        problems.append(f"{name}: refused: {ex}")
+                    elif err not in str(ex):
+                        problems.append(f"{name}: refused with an unexpected message: {ex} (expected `{err}`)")
+    except TrError as ex:
+        problems.append(f"thick selftest input does not parse: {ex}")
+    finally:
+        for d, sv in ((EXPECTED_STRUCTS, saved[0]), (THICK_EXPECTED_ENUMS, saved[1])):
+            for k in list(d):
+                if k not in sv:
+                    del d[k]
+    return problems
+
+
 def generate(repo):
     try:
-        problems = selftest()
+        problems = selftest() + selftest_thick()
         if problems:
             raise TrError("translator self test failed: " + "; ".join(problems[:3]))
         text, info = translate(repo)
-        info["selftest_cases"] = len(SELFTEST_CASES)
+        info["selftest_cases"] = len(SELFTEST_CASES) + len(THICK_SELFTEST_CASES)
     except TrError as ex:
         reason = str(ex)
     except RecursionError:
@@ -1482,8 +1561,8 @@ if __name__ == "__main__":
     import sys
     repo = os.environ.get("EG_REPO", "/repo")
     if len(sys.argv) > 1 and sys.argv[1] == "--selftest":
-        ps = selftest()
-        print("\n".join(ps) if ps else f"selftest: {len(SELFTEST_CASES)} cases fine")
+        ps = selftest() + selftest_thick()
+        print("\n".join(ps) if ps else f"selftest: {len(SELFTEST_CASES)} + {len(THICK_SELFTEST_CASES)} cases fine")
         sys.exit(1 if ps else 0)
     elif len(sys.argv) > 1 and sys.argv[1] == "--strict":
         t, i = translate(repo)
